@@ -91,9 +91,23 @@ class Mon:
             desc['j'] = 1
             desc['cpsr'] = '%#010x' % cpu.registers.cpsr.value
             self.bump('steps_from_jazelle_or_thumbee_state')
+        if rng.random() < 0.3:
+            cpu.registers.event_register = True              # an event is pending (set from outside: SEV of another processor)
         pre_mode = cpu.registers.cpsr.m
+        tm0 = type_map(cpu)
         k, sig = scen.step(cpu)
         self.res['evaluations'] += 1
+        tm1 = type_map(cpu)
+        self.bump('type_audits')
+        if tm1 != tm0:
+            changed = sorted(set(tm0) ^ set(tm1)) + sorted(k_ for k_ in tm0 if k_ in tm1 and tm0[k_] != tm1[k_])
+            key = 'C18|object-attribute-added-or-retyped|%s' % ','.join(changed)[:80]
+            if key not in self.viol:
+                self.viol[key] = dict(key=key, desc='a step changed the attribute set / types of the processor object: %s (word %s, %s)' % (
+                    changed[:4], desc['word'], kind), replay=dict(desc), count=0)
+            self.viol[key]['count'] += 1
+            # the shared context object is now tainted: rebuild it
+            self.ctxs.pop(ctxkey, None)
         executed = type(cpu.executed_opcode).__name__
         post_mode = cpu.registers.cpsr.m
         if k == 'host':
@@ -217,6 +231,11 @@ def type_map(cpu):
     """type of every attribute of the register file (and of every element of its lists): a step must never
     replace a register object by something else"""
     out = {}
+    # attributes of the processor object itself: a step must not add one (an instance attribute that shadows a method) nor
+    # change the type of one
+    for k, v in vars(cpu).items():
+        if k not in ('executed_opcode', 'opcode', 'opcode_len'):
+            out['cpu.' + k] = type(v).__name__
     for k, v in vars(cpu.registers).items():
         if isinstance(v, (list, tuple)):
             out[k] = tuple(type(x).__name__ for x in v)
